@@ -19,5 +19,7 @@ def check(ctx):
     provrules.rule_choke_point(ctx, facts, "R2")
     provrules.rule_scope_sampling(ctx, facts, "R3")
     provrules.rule_scope_entries_check(ctx, facts, "R4")
+    from .. import scopes
+    scopes.rule_scope_always_opened(ctx, facts, "R6")
     provrules.rule_token_items(ctx, facts, "R5", fields=("trace_id", "is_sampled"))
     provrules.rule_context_copies(ctx, facts, "R5", fields=("trace_id", "sampled"))
